@@ -346,7 +346,7 @@ def collect_gates(run):
 
     def oracle(c, it=None):
         if c.op in ("isclose", "allclose"):
-            tol = c.text if isinstance(c.text, tuple) and c.text and c.text[0] == "tol" else ("tol", 1e-5, 1e-8)
+            tol = ("tol",) + tuple(getattr(c, "tol", None) or (1e-5, 1e-8))
             gates.append((c.lhs, c.rhs, tol[1], tol[2]))
             return False
         if c.op == ">":
